@@ -68,6 +68,12 @@ func (w *Waiter) Next() GenericDataType {
 		data, ok := w.Diode.TryNext()
 		if !ok {
 			if w.isDone() {
+				// A Set may have completed between the failed TryNext
+				// above and the cancellation: look once more so that
+				// it is not left behind.
+				if data, ok := w.Diode.TryNext(); ok {
+					return data
+				}
 				return nil
 			}
 
